@@ -1,7 +1,8 @@
 /-
 Helper lemmas about `Value.cmp` / `cmpL` / `cmpKV` and `Value.beq` (`impl Ord for Value`, derived
-`PartialEq`): compatibility with `rank`, orientation (all values), transitivity on the domain
-`inD` (recursively through arrays and objects), agreement of `==` with `cmp … = Equal` on `inS`.
+`PartialEq`): compatibility with `rank`, orientation and transitivity for ALL values (numbers are
+compared by exact value since the `cmp_int_float` repair of src/data.rs; recursively through arrays
+and objects), agreement of `==` with `cmp … = Equal` on `inS`.
 -/
 import AgProofs.Lemmas.F64
 
@@ -11,16 +12,18 @@ open F64
 
 /-! ### the domain
 
-`inD fl v`: either there are no floats at all (`fl = false`, integers unrestricted) or floats are
-allowed (`fl = true`) and every integer is within ±2^53, where `i64 as f64` is exact — this
-recursively through arrays and objects (whose payload in the model is the key-sorted entry list,
-which is what the real `Ord` compares). -/
+`inD fl v`: either there are no floats at all (`fl = false`) or floats are allowed (`fl = true`:
+every value, `inD_true`); integers are unrestricted in both (before the `cmp_int_float` repair
+`fl = true` confined them to ±2^53, where `i64 as f64` is exact) — this recursively through arrays
+and objects (whose payload in the model is the key-sorted entry list, which is what the real `Ord`
+compares).  The order laws below no longer need the domain; it is kept for the float-free
+statements (`inD false`) and for the signatures of the `…_partial` theorems. -/
 
 mutual
 def inD (fl : Bool) : Value → Bool
   | none => true
   | bool _ => true
-  | int i => !fl || decide (i.natAbs ≤ two53)
+  | int _ => true
   | float _ => fl
   | str _ => true
   | date _ => true
@@ -35,9 +38,30 @@ def inDKV (fl : Bool) : List (String × Value) → Bool
   | (_, x) :: xs => inD fl x && inDKV fl xs
 end
 
-/-- the double a number is compared as -/
+mutual
+/-- with floats allowed the domain is everything -/
+theorem inD_true : ∀ a : Value, inD true a = true
+  | .none => by simp [inD]
+  | .bool _ => by simp [inD]
+  | .int _ => by simp [inD]
+  | .float _ => by simp [inD]
+  | .str _ => by simp [inD]
+  | .date _ => by simp [inD]
+  | .dur _ => by simp [inD]
+  | .arr xs => by simp only [inD]; exact inDL_true xs
+  | .obj xs => by simp only [inD]; exact inDKV_true xs
+theorem inDL_true : ∀ a : List Value, inDL true a = true
+  | [] => by simp [inDL]
+  | x :: xs => by simp only [inDL, Bool.and_eq_true]; exact ⟨inD_true x, inDL_true xs⟩
+theorem inDKV_true : ∀ a : List (String × Value), inDKV true a = true
+  | [] => by simp [inDKV]
+  | (_, x) :: xs => by simp only [inDKV, Bool.and_eq_true]; exact ⟨inD_true x, inDKV_true xs⟩
+end
+
+/-- the datum a number is compared as: a double as itself, an integer as the exact (unrounded)
+datum `exactInt i` -/
 def toF : Value → F64
-  | int i => ofInt i
+  | int i => exactInt i
   | float f => f
   | _ => F64.nan
 
@@ -98,17 +122,16 @@ theorem cmp_arr_arr (a b : List Value) : cmp (arr a) (arr b) = cmpL a b := by si
 theorem cmp_obj_obj (a b : List (String × Value)) : cmp (obj a) (obj b) = cmpKV a b := by
   simp [cmp]
 
-/-! ### numbers are compared as doubles -/
+/-! ### numbers are compared by exact value, in `OrderedFloat`'s order -/
 
 theorem cmpBool_swap (a b : Bool) : (cmpBool a b).swap = cmpBool b a := by
   cases a <;> cases b <;> rfl
 
-theorem cmp_num {fl : Bool} {a b : Value} (ha : inD fl a) (hb : inD fl b)
-    (na : isNum a) (nb : isNum b) (hfl : fl = true) : cmp a b = ocmp (toF a) (toF b) := by
-  subst hfl
-  cases a <;> cases b <;> simp [isNum] at na nb <;> simp [cmp, toF]
-  simp [inD] at ha hb
-  rw [ocmp_ofInt ha hb]
+theorem cmp_num {a b : Value} (na : isNum a) (nb : isNum b) : cmp a b = ocmp (toF a) (toF b) := by
+  cases a <;> cases b <;> simp [isNum] at na nb <;> simp only [cmp, toF]
+  · exact (ocmp_exactInt _ _).symm
+  · exact cmpIntFloat_eq_ocmp _ _
+  · rw [cmpIntFloat_eq_ocmp, ocmp_swap]
 
 theorem cmp_int_int (a b : Int) : cmp (int a) (int b) = compare a b := by simp [cmp]
 
@@ -230,22 +253,17 @@ theorem transOK_of_rank (a b c : Value) (h : ¬ (a.rank = b.rank ∧ b.rank = c.
     have := rank_eq_of_cmp_eq h1; have := rank_eq_of_cmp_eq h2
     omega
 
-/-- scalars (neither arrays nor objects) in the domain -/
-theorem cmp_transOK_flat {fl : Bool} (a b c : Value) (ha : inD fl a) (hb : inD fl b)
-    (hc : inD fl c) (hflat : a.rank < 6) : TransOK (cmp a b) (cmp b c) (cmp a c) := by
+/-- scalars (neither arrays nor objects) -/
+theorem cmp_transOK_flat (a b c : Value) (hflat : a.rank < 6) :
+    TransOK (cmp a b) (cmp b c) (cmp a c) := by
   by_cases hr : ¬ (a.rank = b.rank ∧ b.rank = c.rank)
   · exact transOK_of_rank a b c hr
   obtain ⟨rab, rbc⟩ := Classical.not_not.1 hr
   by_cases hn : isNum a
   · have hnb : isNum b := isNum_of_rank rab hn
     have hnc : isNum c := isNum_of_rank rbc hnb
-    cases fl
-    · cases a <;> simp [isNum] at hn <;> cases b <;> simp [isNum] at hnb <;>
-        cases c <;> simp [isNum] at hnc <;> simp [inD] at ha hb hc
-      simp only [cmp_int_int]
-      exact transOK_of_transCmp (compare : Int → Int → Ordering) _ _ _
-    · rw [cmp_num ha hb hn hnb rfl, cmp_num hb hc hnb hnc rfl, cmp_num ha hc hn hnc rfl]
-      exact transOK_of_transCmp ocmp _ _ _
+    rw [cmp_num hn hnb, cmp_num hnb hnc, cmp_num hn hnc]
+    exact transOK_of_transCmp ocmp _ _ _
   · cases a <;> simp [isNum] at hn <;> simp [rank] at hflat <;> cases b <;> simp [rank] at rab <;>
       cases c <;> simp [rank] at rbc <;> simp only [cmp, rank]
     · constructor <;> simp
@@ -255,52 +273,48 @@ theorem cmp_transOK_flat {fl : Bool} (a b c : Value) (ha : inD fl a) (hb : inD f
     · exact transOK_of_transCmp (compare : Int → Int → Ordering) _ _ _
 
 mutual
-theorem cmp_transOK (fl : Bool) : ∀ a b c : Value, inD fl a = true → inD fl b = true →
-    inD fl c = true → TransOK (cmp a b) (cmp b c) (cmp a c)
-  | .none, b, c, ha, hb, hc => cmp_transOK_flat _ b c ha hb hc (by simp [rank])
-  | .bool _, b, c, ha, hb, hc => cmp_transOK_flat _ b c ha hb hc (by simp [rank])
-  | .int _, b, c, ha, hb, hc => cmp_transOK_flat _ b c ha hb hc (by simp [rank])
-  | .float _, b, c, ha, hb, hc => cmp_transOK_flat _ b c ha hb hc (by simp [rank])
-  | .str _, b, c, ha, hb, hc => cmp_transOK_flat _ b c ha hb hc (by simp [rank])
-  | .date _, b, c, ha, hb, hc => cmp_transOK_flat _ b c ha hb hc (by simp [rank])
-  | .dur _, b, c, ha, hb, hc => cmp_transOK_flat _ b c ha hb hc (by simp [rank])
-  | .arr xs, b, c, ha, hb, hc => by
+/-- transitivity for ALL values (nested arrays and objects included) -/
+theorem cmp_transOK_all : ∀ a b c : Value, TransOK (cmp a b) (cmp b c) (cmp a c)
+  | .none, b, c => cmp_transOK_flat _ b c (by simp [rank])
+  | .bool _, b, c => cmp_transOK_flat _ b c (by simp [rank])
+  | .int _, b, c => cmp_transOK_flat _ b c (by simp [rank])
+  | .float _, b, c => cmp_transOK_flat _ b c (by simp [rank])
+  | .str _, b, c => cmp_transOK_flat _ b c (by simp [rank])
+  | .date _, b, c => cmp_transOK_flat _ b c (by simp [rank])
+  | .dur _, b, c => cmp_transOK_flat _ b c (by simp [rank])
+  | .arr xs, b, c => by
     by_cases hr : ¬ ((arr xs).rank = b.rank ∧ b.rank = c.rank)
     · exact transOK_of_rank _ b c hr
     obtain ⟨rab, rbc⟩ := Classical.not_not.1 hr
     cases b <;> simp [rank] at rab
     cases c <;> simp [rank] at rbc
-    simp only [inD] at ha hb hc
     simp only [cmp_arr_arr]
-    exact cmpL_transOK fl xs _ _ ha hb hc
-  | .obj xs, b, c, ha, hb, hc => by
+    exact cmpL_transOK_all xs _ _
+  | .obj xs, b, c => by
     by_cases hr : ¬ ((obj xs).rank = b.rank ∧ b.rank = c.rank)
     · exact transOK_of_rank _ b c hr
     obtain ⟨rab, rbc⟩ := Classical.not_not.1 hr
     cases b <;> simp [rank] at rab
     cases c <;> simp [rank] at rbc
-    simp only [inD] at ha hb hc
     simp only [cmp_obj_obj]
-    exact cmpKV_transOK fl xs _ _ ha hb hc
-theorem cmpL_transOK (fl : Bool) : ∀ a b c : List Value, inDL fl a = true → inDL fl b = true →
-    inDL fl c = true → TransOK (cmpL a b) (cmpL b c) (cmpL a c)
-  | [], b, c, _, _, _ => by
+    exact cmpKV_transOK_all xs _ _
+theorem cmpL_transOK_all : ∀ a b c : List Value, TransOK (cmpL a b) (cmpL b c) (cmpL a c)
+  | [], b, c => by
     cases b <;> cases c <;> constructor <;> simp [cmpL]
-  | x :: xs, b, c, ha, hb, hc => by
+  | x :: xs, b, c => by
     cases b with
     | nil => cases c <;> constructor <;> simp [cmpL]
     | cons y ys =>
       cases c with
       | nil => constructor <;> simp [cmpL]
       | cons z zs =>
-        simp only [inDL, Bool.and_eq_true] at ha hb hc
         simp only [cmpL_cons_cons]
-        exact (cmp_transOK fl x y z ha.1 hb.1 hc.1).then (cmpL_transOK fl xs ys zs ha.2 hb.2 hc.2)
-theorem cmpKV_transOK (fl : Bool) : ∀ a b c : List (String × Value), inDKV fl a = true →
-    inDKV fl b = true → inDKV fl c = true → TransOK (cmpKV a b) (cmpKV b c) (cmpKV a c)
-  | [], b, c, _, _, _ => by
+        exact (cmp_transOK_all x y z).then (cmpL_transOK_all xs ys zs)
+theorem cmpKV_transOK_all : ∀ a b c : List (String × Value),
+    TransOK (cmpKV a b) (cmpKV b c) (cmpKV a c)
+  | [], b, c => by
     cases b <;> cases c <;> constructor <;> simp [cmpKV]
-  | (k, x) :: xs, b, c, ha, hb, hc => by
+  | (k, x) :: xs, b, c => by
     cases b with
     | nil => cases c <;> constructor <;> simp [cmpKV]
     | cons y ys =>
@@ -309,12 +323,22 @@ theorem cmpKV_transOK (fl : Bool) : ∀ a b c : List (String × Value), inDKV fl
       | nil => constructor <;> simp [cmpKV]
       | cons z zs =>
         obtain ⟨n, z⟩ := z
-        simp only [inDKV, Bool.and_eq_true] at ha hb hc
         simp only [cmpKV_cons_cons]
         exact (transOK_of_transCmp (compare : String → String → Ordering) k l n).then
-          ((cmp_transOK fl x y z ha.1 hb.1 hc.1).then
-            (cmpKV_transOK fl xs ys zs ha.2 hb.2 hc.2))
+          ((cmp_transOK_all x y z).then (cmpKV_transOK_all xs ys zs))
 end
+
+/-- (the domain hypotheses are no longer used; kept for the callers' signatures) -/
+theorem cmp_transOK (fl : Bool) (a b c : Value) (_ : inD fl a = true) (_ : inD fl b = true)
+    (_ : inD fl c = true) : TransOK (cmp a b) (cmp b c) (cmp a c) := cmp_transOK_all a b c
+theorem cmpL_transOK (fl : Bool) (a b c : List Value) (_ : inDL fl a = true) (_ : inDL fl b = true)
+    (_ : inDL fl c = true) : TransOK (cmpL a b) (cmpL b c) (cmpL a c) := cmpL_transOK_all a b c
+theorem cmpKV_transOK (fl : Bool) (a b c : List (String × Value)) (_ : inDKV fl a = true)
+    (_ : inDKV fl b = true) (_ : inDKV fl c = true) :
+    TransOK (cmpKV a b) (cmpKV b c) (cmpKV a c) := cmpKV_transOK_all a b c
+
+theorem cmp_isLE_trans_all {a b c : Value} (h1 : (cmp a b).isLE) (h2 : (cmp b c).isLE) :
+    (cmp a c).isLE := (cmp_transOK_all a b c).isLE h1 h2
 
 theorem cmp_isLE_trans {fl : Bool} {a b c : Value} (ha : inD fl a) (hb : inD fl b) (hc : inD fl c)
     (h1 : (cmp a b).isLE) (h2 : (cmp b c).isLE) : (cmp a c).isLE :=
@@ -330,11 +354,13 @@ def normFloat : F64 → Bool
 
 mutual
 /-- values whose numbers are normalised the way `from_float` leaves them (a `Float` never holds
-an integer of the i64 range), integers within ±2^53 — recursively through arrays and objects -/
+an integer of the i64 range); an `Int` is any i64 (the model's integers are mathematical: the
+range is part of the Rust type, and beyond it `Int 2^63` would be `Equal` to the normalised
+`Float 2^63`) — recursively through arrays and objects -/
 def inS : Value → Bool
   | none => true
   | bool _ => true
-  | int i => decide (i.natAbs ≤ two53)
+  | int i => inI64 i
   | float f => normFloat f
   | str _ => true
   | date _ => true
@@ -353,7 +379,7 @@ mutual
 theorem inD_of_inS : ∀ a : Value, inS a = true → inD true a = true
   | .none, _ => by simp [inD]
   | .bool _, _ => by simp [inD]
-  | .int _, h => by simpa [inS, inD] using h
+  | .int _, _ => by simp [inD]
   | .float _, _ => by simp [inD]
   | .str _, _ => by simp [inD]
   | .date _, _ => by simp [inD]
@@ -377,38 +403,32 @@ end
 theorem cmpBool_eq_iff (a b : Bool) : cmpBool a b = .eq ↔ a = b := by
   cases a <;> cases b <;> simp [cmpBool]
 
-/-- a normalised double is not `Equal` to any integer within ±2^53 -/
-theorem ocmp_ofInt_ne_eq_norm {i : Int} {f : F64} (hi : i.natAbs ≤ two53) (hf : normFloat f = true) :
-    ocmp (ofInt i) f ≠ .eq ∧ ocmp f (ofInt i) ≠ .eq := by
-  have h1 : ocmp (ofInt i) f ≠ .eq := by
-    intro h
-    have hv := ocmp_eq_hasVal (ofInt_hasVal hi).1 h
-    cases f with
-    | nan => simp [HasVal] at hv
-    | inf b => simp [HasVal] at hv
-    | fin s m e =>
-      simp only [normFloat, Bool.or_eq_true, Bool.not_eq_true'] at hf
+/-- a normalised double is not `Equal` to any integer of the i64 range -/
+theorem cmpIntFloat_ne_eq_norm {i : Int} {f : F64} (hi : inI64 i = true)
+    (hf : normFloat f = true) : cmpIntFloat i f ≠ .eq := by
+  intro h
+  have hv := cmpIntFloat_eq_hasVal h
+  cases f with
+  | nan => simp [HasVal] at hv
+  | inf b => simp [HasVal] at hv
+  | fin s m e =>
+    simp only [normFloat, Bool.or_eq_true, Bool.not_eq_true'] at hf
+    by_cases hfr : fractNonzero (fin s m e) = true
+    · exact not_hasVal_int_of_fractNonzero hfr hv
+    · have hfr' : fractNonzero (fin s m e) = false := by simpa using hfr
       rcases hf with hf | hf
-      · exact not_hasVal_int_of_fractNonzero hf hv
-      · by_cases hfr : fractNonzero (fin s m e) = true
-        · exact not_hasVal_int_of_fractNonzero hfr hv
-        · have hfr' : fractNonzero (fin s m e) = false := by simpa using hfr
-          -- integral: its value is `truncInt`, which is outside the i64 range, but equals `i`
-          have hv2 : HasVal (fin s m e) (truncInt s m e) 0 := truncInt_hasVal hfr'
-          have := hasVal_unique hv hv2
-          rw [← this] at hf
-          simp only [inI64, Bool.and_eq_false_iff, i64Min, i64Max] at hf
-          simp only [two53] at hi
-          rcases hf with hf | hf <;> (have := of_decide_eq_false hf; omega)
-  refine ⟨h1, fun h => h1 ?_⟩
-  rw [← ocmp_swap, h]; rfl
+      · exact absurd hf hfr
+      · -- integral: its value is `truncInt`, which is outside the i64 range, but equals `i`
+        have hv2 : HasVal (fin s m e) (truncInt s m e) 0 := truncInt_hasVal hfr'
+        rw [← hasVal_unique hv hv2, hi] at hf
+        exact absurd hf (by decide)
 
 theorem beq_iff_cmp_eq_flat {a b : Value} (ha : inS a) (hb : inS b) (hflat : a.rank < 6) :
     beq a b = true ↔ cmp a b = .eq := by
-  cases a <;> simp [rank] at hflat <;> cases b <;> simp [inS] at ha hb <;>
+  cases a <;> simp [rank] at hflat <;> cases b <;> simp only [inS] at ha hb <;>
     simp [beq, cmp, rank, cmpBool_eq_iff, oeq_iff] <;> try decide
-  · exact (ocmp_ofInt_ne_eq_norm ha hb).1
-  · exact (ocmp_ofInt_ne_eq_norm hb ha).2
+  · exact cmpIntFloat_ne_eq_norm ha hb
+  · exact cmpIntFloat_ne_eq_norm hb ha
 
 mutual
 theorem beq_iff_cmp_eq : ∀ a b : Value, inS a = true → inS b = true →
@@ -468,20 +488,28 @@ def num : Value → Option Dyadic
 theorem dcmp_intCast (a b : Int) : dcmp (a : Dyadic) (b : Dyadic) = compare a b :=
   dcmp_ofIntWithPrec a b 0
 
-theorem cmp_eq_dcmp {fl : Bool} {a b : Value} {x y : Dyadic} (ha : inD fl a) (hb : inD fl b)
+/-- numbers (integers and finite doubles, mixed) compare by exact value — all of them -/
+theorem cmp_eq_dcmp_all {a b : Value} {x y : Dyadic}
     (hx : num a = some x) (hy : num b = some y) : cmp a b = dcmp x y := by
   cases a <;> simp only [num, reduceCtorEq] at hx <;> cases b <;> simp only [num, reduceCtorEq] at hy
   · simp only [Option.some.injEq] at hx hy
     subst hx hy
     rw [cmp_int_int, dcmp_intCast]
-  · cases fl <;> simp [inD] at ha hb
+  · simp only [Option.some.injEq] at hx
+    subst hx
     simp only [cmp]
-    exact ocmp_eq_dcmp (by rw [val_ofInt ha, hx]) hy
-  · cases fl <;> simp [inD] at ha hb
+    exact cmpIntFloat_eq_dcmp _ hy
+  · simp only [Option.some.injEq] at hy
+    subst hy
     simp only [cmp]
-    exact ocmp_eq_dcmp hx (by rw [val_ofInt hb, hy])
+    rw [cmpIntFloat_eq_ocmp, ocmp_swap]
+    exact ocmp_eq_dcmp hx (val_exactInt _)
   · simp only [cmp]
     exact ocmp_eq_dcmp hx hy
+
+/-- (the domain hypotheses are no longer used; kept for the callers' signatures) -/
+theorem cmp_eq_dcmp {fl : Bool} {a b : Value} {x y : Dyadic} (_ : inD fl a) (_ : inD fl b)
+    (hx : num a = some x) (hy : num b = some y) : cmp a b = dcmp x y := cmp_eq_dcmp_all hx hy
 
 end Value
 end Ag
